@@ -87,14 +87,19 @@ def canonAuthority (raw : Bytes) : Bytes :=
 
 /-- `canonicalize_uri`: `Uri::builder().scheme("ipp").path_and_query(uri.path()).authority(…).build()`,
     falling back to a copy of the input when the builder fails (scheme without authority) -/
-def canonUri (u : Uri) : Uri :=
-  match u.authority with
-  | some raw => { scheme := some canonScheme, authority := some (canonAuthority raw), path := u.path, query := none,
-                  pq := some u.path }
-  | none => u
-
 def cSlash : UInt8 := 0x2f
 def cQ : UInt8 := 0x3f
+
+/-- what `path()` reports for a URI that has a scheme: "/" when the stored path is empty.  A parsed
+    absolute URI never has an empty path; a target in authority form (`host:port`, no scheme) does, and the
+    URI built from it prints with "/" -/
+def builtPath (p : Bytes) : Bytes := if p.isEmpty then [cSlash] else p
+
+def canonUri (u : Uri) : Uri :=
+  match u.authority with
+  | some raw => { scheme := some canonScheme, authority := some (canonAuthority raw), path := builtPath u.path, query := none,
+                  pq := some (builtPath u.path) }
+  | none => u
 
 /-- `impl Display for Uri` -/
 def renderUri (u : Uri) : Bytes :=
